@@ -773,13 +773,91 @@ def reciprocity(rec, seed, k, i, tier):
 
 
 # --------------------------------------------------------------------------
+def sim_adjoint_sources(rec, seed, k, i, tier):
+    """The transposes where a Simulation uses them: the residual source field
+    it back-propagates for (source, frequency) pairs with every probe field E
+    as  <rfield, E> = sum_i c_i P_i(E),  P_i = sampling at receiver i (at its
+    own absolute position, of its own kind and orientation), c_i = conj(w_i
+    r_i) (-s mu0)/conj(-s mu0) - receivers in any order, electric and
+    magnetic mixed, absolute and source-relative."""
+    import emg3d
+    from vf import simgen
+    r = gen.rng(seed, 'C09', 'S', k, i)
+    ps = simgen.problem_spec(r, nrec=int(gen.choice(r, [2, 3, 4])),
+                             nan_frac=0.0)
+    grid, model = simgen.build_model(ps)
+    sv0 = simgen.build_survey(ps, with_noise=False)
+    sim0 = simgen.simulation(sv0, model, solver_opts={'maxit': 1})
+    sim0.compute()
+    d = np.array(sv0.data.synthetic.data)
+    obs = d*(1 + 0.2*r.standard_normal(d.shape)) + 0.2j*np.abs(d) * \
+        r.standard_normal(d.shape)
+    if d.size > 2:
+        m = r.random(d.shape) < 0.25
+        if not m.all():
+            obs[m] = np.nan + 1j*np.nan
+    sv = simgen.build_survey(ps, data=obs)
+    sim = simgen.simulation(sv, model, solver_opts={'maxit': 1})
+    _ = sim.misfit
+    res = np.array(sim.data.residual.data)
+    wgt = np.array(sim.data.weights.data)
+    kinds = [c['kind'] for c in ps['receivers']]
+    order = ''.join('m' if 'Magnetic' in kk else 'e' for kk in kinds)
+    case = {'mode': 'S', 'seed': seed, 'k': k, 'i': i,
+            'problem': simgen.summarize(ps), 'receiver_order': order}
+    rec.case()
+    srcs = list(sv.sources.values())
+    for a, (sname, src) in enumerate(sv.sources.items()):
+        centre = np.array(src.center, float)
+        for b, (fname, freq) in enumerate(sv.frequencies.items()):
+            rf = np.array(sim._get_rfield(sname, fname).field)
+            smu0 = sval_mu0(float(freq))
+            for _ in range(2):
+                ev = gen.random_field(r, grid.n_edges, True)
+                E = emg3d.Field(grid, data=ev.copy(), frequency=float(freq))
+                H = emg3d.get_magnetic_field(model, E)
+                got = complex(np.dot(rf, ev))
+                want, scale = 0.0, 0.0
+                for j, c in enumerate(ps['receivers']):
+                    if not np.isfinite(res[a, j, b]):
+                        continue
+                    co = np.array(c['coordinates'], float)
+                    if c['relative']:
+                        co = np.r_[centre + co[:3], co[3:]]
+                    fld = H if 'Magnetic' in c['kind'] else E
+                    pv = complex(emg3d.fields.get_receiver(
+                        fld, tuple(co), method='linear'))
+                    ci = np.conj(wgt[a, j, b]*res[a, j, b])*(-smu0) / \
+                        np.conj(-smu0)
+                    want += ci*pv
+                    scale += abs(ci*pv)
+                rec.event('sim_adjoint_source_pairings')
+                if scale == 0.0:
+                    continue
+                err = abs(got - want)/scale
+                rec.margin('sim_adjoint_source_rel_err', err)
+                if not (err <= 1e-9):
+                    rec.violation(
+                        'C09:simulation-adjoint-sources-not-receiver-transposes',
+                        f'pair ({sname}, {fname}), receivers {order}: '
+                        f'<rfield, E> = {got} but sum_i c_i P_i(E) = {want} '
+                        f'(rel {err:.3e}): the adjoint sources are not the '
+                        f'transposes of the sampling at the receivers\' own '
+                        f'positions/orientations', case)
+                    return
+    rec.distinct(('S', order, tuple(sorted({(c['kind'], c['relative'])
+                                            for c in ps['receivers']})),
+                  len(srcs)))
+    _ = tier
+
+
 def plan(tier, seed):
     # few, mixed batches: importing emg3d costs more than a hundred cases
     if tier == 'quick':
         return [{'id': f'q{k}', 'k': k, 'grids': 20, 'npts': 24, 'nnan': 16,
-                 'pairs': 9} for k in range(16)]    # 7680 points, 144 pairs
+                 'pairs': 9, 'sims': 6} for k in range(16)]    # 7680 points, 144 pairs
     out = [{'id': f't{k}', 'k': k, 'grids': 48, 'npts': 30, 'nnan': 20,
-            'pairs': 28} for k in range(36)]        # 51840 points, 1008 pairs
+            'pairs': 28, 'sims': 40} for k in range(36)]        # 51840 points, 1008 pairs
     out += [{'id': f'bc{k}', 'k': 1000+k, 'grids': 12, 'npts': 16, 'nnan': 12,
              'pairs': 3, 'boundscheck': True} for k in range(4)]
     return out
@@ -793,6 +871,7 @@ def run_batch(batch):
     only = batch.get('only')          # e.g. ['T', 3] to replay one case
     todo = [('T', i) for i in range(batch['grids'])]
     todo += [('R', i) for i in range(batch['pairs'])]
+    todo += [('S', i) for i in range(batch.get('sims', 0))]
     with warnings.catch_warnings():
         warnings.simplefilter('ignore')
         for mode, i in todo:
@@ -802,6 +881,8 @@ def run_batch(batch):
                 if mode == 'T':
                     transposes(rec, seed, k, i, tier, batch['npts'],
                                batch['nnan'])
+                elif mode == 'S':
+                    sim_adjoint_sources(rec, seed, k, i, tier)
                 else:
                     reciprocity(rec, seed, k, i, tier)
             except IndexError:
@@ -825,7 +906,8 @@ def finalize(merged, tier):
         'adjoint_class_e': 1000, 'adjoint_class_m': 1000,
         'e_vectorised_vs_ref': 3000, 'm_vectorised_vs_ref': 3000,
         'nan_policy_must_be_nan': 5000, 'nan_policy_must_be_finite': 5000,
-        'recip_pairs': 60, 'recip_pairs_significant': 40})
+        'recip_pairs': 60, 'recip_pairs_significant': 40,
+        'sim_adjoint_source_pairings': 150})
     ev = merged['events']
     if ev.get('recip_not_converged', 0) > 0.5*max(1, ev.get('recip_solves', 0)
                                                   / 2):
